@@ -39,9 +39,10 @@ type Profile struct {
 var AllKinds = []string{"bool", "incr", "string", "int", "float", "sopt", "iopt", "fopt", "sslice", "islice", "fslice", "smap"}
 
 var namePool = []string{"V", "Ver", "VERBOSE", "v", "ver", "verbose", "version", "x", "y", "z", "s", "str", "string", "l", "list", "m", "map",
-	"n", "num", "f", "flt", "q", "quiet", "é", "ü", "über", "日", "日本", "o", "out", "output", "t", "tag", "h", "he", "k", "key"}
+	"n", "num", "f", "flt", "q", "quiet", "é", "ü", "über", "日", "日本", "o", "out", "output", "t", "tag", "h", "he", "k", "key",
+	"dry-run", "dry", "no-v", "a-b-c", "2", "n1", "1st", "o.x", "a_b", "x:y"}
 
-var cmdPool = []string{"cmd", "sub", "run", "build", "Build", "RUN", "c", "日本", "log", "list", "str"}
+var cmdPool = []string{"cmd", "sub", "run", "build", "Build", "RUN", "c", "日本", "log", "list", "str", "sub-cmd", "2", "a.b"}
 
 var wordPool = []string{"a", "b", "val", "foo", "cmd", "sub", "run", "true", "false", "help", "x", ""}
 
